@@ -506,6 +506,245 @@ async fn run_pairing(backend: Backend, inverted: bool, work: &Path, logs_dir: &P
     v
 }
 
+/// The operation alphabet of the history stage.
+const HOPS: &[&str] = &[
+    "create_secret", "update_s0", "delete_s0", "move_s0_to_f1", "archive_s0", "compact_default", "compact_account",
+    "change_folder_password_f1", "set_description_f1", "delete_f1", "change_account_password", "change_cipher",
+    "export_backup_archive", "sync",
+];
+
+fn hist_depth(tier: Tier) -> usize {
+    std::env::var("LEAKX_DEPTH").ok().and_then(|v| v.parse().ok()).unwrap_or(if tier == Tier::Quick { 2 } else { 3 })
+}
+
+/// All operation sequences of the given depth that start with `first`,
+/// each from a copy of one baseline account (default folder with a note,
+/// a user folder with a login and a description), every plaintext a
+/// distinct marker; after each sequence: sync through the tee, sign out,
+/// scan both directories and the wire.
+async fn run_histories(first: usize, backend: Backend, depth: usize, work: &Path, logs_dir: &Path) -> Value {
+    let mut fails: Vec<Value> = vec![];
+    let res: Result<Value> = async {
+        let _ = std::fs::remove_dir_all(work);
+        clock::install();
+        let tag = format!("{}H{}", BASE, if backend == Backend::Db { "Db" } else { "Fs" });
+        // baseline
+        let bdir = work.join("baseline");
+        let mut base_markers: Vec<(String, Vec<u8>)> = vec![];
+        let (account_id, s0, default_id, f1_id) = {
+            let mut dev = Dev::create(&bdir, backend, "leak-history", true).await?;
+            let default = dev.account.default_folder().await.unwrap();
+            let m = format!("{}BaseNote", tag);
+            let (meta, secret) = gen::secret("note", 0, &m);
+            let s0 = dev.account.create_secret(meta, secret, Default::default()).await?.id;
+            base_markers.push(("baseline_note".into(), m.into_bytes()));
+            let f1 = dev.account.create_folder(NewFolderOptions::new("plain-folder-name".into())).await?.folder;
+            let m = format!("{}BaseLogin", tag);
+            let (meta, secret) = gen::secret("login", 0, &m);
+            dev.account.create_secret(meta, secret, AccessOptions { folder: Some(*f1.id()), ..Default::default() }).await?;
+            base_markers.push(("baseline_login".into(), m.into_bytes()));
+            let m = format!("{}BaseDesc", tag);
+            dev.account.set_folder_description(f1.id(), format!("description {}", m)).await?;
+            base_markers.push(("folder_description".into(), m.into_bytes()));
+            if let Some(AccessKey::Password(p)) = dev.account.find_folder_password(f1.id()).await? {
+                use secrecy::ExposeSecret;
+                base_markers.push(("folder_password".into(), p.expose_secret().as_bytes().to_vec()));
+            }
+            base_markers.push(("device_signing_key".into(), dev.account.device_signer().await?.to_bytes().to_vec()));
+            base_markers.push(("account_password".into(), vkit::acct::PASSWORD.as_bytes().to_vec()));
+            let r = (dev.account_id, s0, *default.id(), *f1.id());
+            dev.close().await;
+            r
+        };
+        // sequences
+        let mut seqs: Vec<Vec<usize>> = vec![vec![first]];
+        for _ in 1..depth {
+            let mut next = vec![];
+            for q in &seqs {
+                for o in 0..HOPS.len() {
+                    let mut n = q.clone();
+                    n.push(o);
+                    next.push(n);
+                }
+            }
+            seqs = next;
+        }
+        let mut scanned_bytes = 0u64;
+        let mut checks = 0u64;
+        let mut wire_bytes = 0u64;
+        let mut haystacks = 0u64;
+        let mut ops_applied = 0u64;
+        let mut ops_refused = 0u64;
+        let mut outcomes: std::collections::BTreeSet<String> = Default::default();
+        for (qi, q) in seqs.iter().enumerate() {
+            let run = work.join("run");
+            let _ = std::fs::remove_dir_all(&run);
+            let cdir = run.join("client");
+            fsutil::copy_dir(&bdir, &cdir)?;
+            let server = start_server(&run.join("server"), backend == Backend::Db, None, None).await?;
+            let tee = start_tee(server.addr).await?;
+            let dev = Dev::open(&cdir, backend, account_id, vkit::acct::password()).await?;
+            let d = Device::connect(dev, 0, &tee.origin).await?;
+            let mut markers = base_markers.clone();
+            let mut outcome = String::new();
+            // where the first secret lives (None once deleted)
+            let mut loc: Option<sos_core::VaultId> = Some(default_id);
+            let mut cur_id = s0;
+            for (pos, &o) in q.iter().enumerate() {
+                let loc_now = loc;
+                let s0 = cur_id;
+                let name = HOPS[o];
+                let m = format!("{}S{}P{}{}", tag, qi, pos, name.replace('_', ""));
+                let in_default = AccessOptions { folder: Some(default_id), ..Default::default() };
+                let r: Result<()> = async {
+                    if name == "sync" {
+                        if d.sync().await != SyncResult::Ok {
+                            return Err(anyhow!("sync not ok"));
+                        }
+                        return Ok(());
+                    }
+                    let mut a = d.account.lock().await;
+                    match name {
+                        "create_secret" => {
+                            let (meta, secret) = gen::secret("card", 0, &m);
+                            a.create_secret(meta, secret, in_default.clone()).await?;
+                            markers.push(("secret_created_in_history".into(), m.clone().into_bytes()));
+                        }
+                        "update_s0" => {
+                            let (meta, secret) = gen::secret("note", 1, &m);
+                            // the marker is in the request whether or not the update is accepted
+                            markers.push(("secret_updated_in_history".into(), m.clone().into_bytes()));
+                            a.update_secret(&s0, meta, Some(secret), AccessOptions { folder: Some(loc_now.unwrap_or(default_id)), ..Default::default() }).await?;
+                        }
+                        "delete_s0" => {
+                            a.delete_secret(&s0, AccessOptions { folder: Some(loc_now.unwrap_or(default_id)), ..Default::default() }).await?;
+                            loc = None;
+                        }
+                        "move_s0_to_f1" => {
+                            cur_id = a.move_secret(&s0, &loc_now.unwrap_or(default_id), &f1_id, Default::default()).await?.id;
+                            loc = Some(f1_id);
+                        }
+                        "archive_s0" => {
+                            cur_id = a.archive(&loc_now.unwrap_or(default_id), &s0, Default::default()).await?.id;
+                            loc = a.archive_folder().await.map(|s| *s.id());
+                        }
+                        "compact_default" => {
+                            a.compact_folder(&default_id).await?;
+                        }
+                        "compact_account" => {
+                            a.compact_account().await?;
+                        }
+                        "change_folder_password_f1" => {
+                            markers.push(("new_folder_password".into(), m.clone().into_bytes()));
+                            a.change_folder_password(&f1_id, AccessKey::Password(secrecy::SecretString::new(m.clone().into()))).await?;
+                        }
+                        "set_description_f1" => {
+                            markers.push(("folder_description_set_in_history".into(), m.clone().into_bytes()));
+                            a.set_folder_description(&f1_id, format!("described {}", m)).await?;
+                        }
+                        "delete_f1" => {
+                            a.delete_folder(&f1_id).await?;
+                            if loc_now == Some(f1_id) {
+                                loc = None;
+                            }
+                        }
+                        "change_account_password" => {
+                            markers.push(("new_account_password".into(), m.clone().into_bytes()));
+                            a.change_account_password(secrecy::SecretString::new(m.clone().into())).await?;
+                        }
+                        "change_cipher" => {
+                            // the account key at this point: the latest accepted account password
+                            let cur = markers.iter().rev().find(|(n, _)| n == "accepted_account_password").map(|(_, v)| String::from_utf8(v.clone()).unwrap()).unwrap_or(vkit::acct::PASSWORD.to_string());
+                            let key = AccessKey::Password(secrecy::SecretString::new(cur.into()));
+                            a.change_cipher(&key, &sos_core::crypto::Cipher::AesGcm256, None).await?;
+                        }
+                        "export_backup_archive" => {
+                            a.export_backup_archive(&cdir.join(format!("backup-{}.zip", pos))).await?;
+                        }
+                        _ => unreachable!(),
+                    }
+                    Ok(())
+                }
+                .await;
+                match r {
+                    Ok(()) => {
+                        ops_applied += 1;
+                        outcome.push('a');
+                        if name == "change_account_password" {
+                            markers.push(("accepted_account_password".into(), m.clone().into_bytes()));
+                        }
+                    }
+                    Err(_) => {
+                        ops_refused += 1;
+                        outcome.push('r');
+                        loc = loc_now;
+                    }
+                }
+            }
+            let fin = d.sync().await;
+            outcome.push(if fin == SyncResult::Ok { 's' } else { 'e' });
+            outcomes.insert(format!("{}:{}", q.iter().map(|o| HOPS[*o]).collect::<Vec<_>>().join(">"), outcome));
+            d.close().await;
+            server.stop().await;
+            tee.task.abort();
+            let wire = tee.captured.lock().unwrap().clone();
+            wire_bytes += wire.len() as u64;
+            let mut hay: Vec<(String, Vec<u8>)> = vec![("wire:tee".to_string(), wire)];
+            for p in fsutil::walk_files(logs_dir) {
+                if let Ok(b) = std::fs::read(&p) {
+                    hay.push((format!("logs/{}", p.file_name().unwrap().to_string_lossy()), b));
+                }
+            }
+            for root in ["client", "server"] {
+                for p in fsutil::walk_files(&run.join(root)) {
+                    if let Ok(b) = std::fs::read(&p) {
+                        let rel = p.strip_prefix(&run).unwrap().to_string_lossy().to_string();
+                        if rel.ends_with(".zip") {
+                            if let Ok(entries) = inflate(&b).await {
+                                for (n, e) in entries {
+                                    hay.push((format!("{}!{}", rel, n), e));
+                                }
+                            }
+                        }
+                        hay.push((rel, b));
+                    }
+                }
+            }
+            haystacks += hay.len() as u64;
+            for (hname, h) in &hay {
+                scanned_bytes += h.len() as u64;
+                for (mname, mk) in &markers {
+                    let mname = if mname == "accepted_account_password" { "new_account_password" } else { mname.as_str() };
+                    for (fname, f) in forms(mk) {
+                        checks += 1;
+                        if memmem(h, &f) {
+                            let place = if hname.starts_with("wire") {
+                                "wire".to_string()
+                            } else if hname.starts_with("logs/") {
+                                "log_file".to_string()
+                            } else {
+                                let top = hname.split('/').next().unwrap_or("");
+                                let file = hname.rsplit('/').next().unwrap_or("");
+                                let ext = if file.contains('!') { "archive_entry".to_string() } else { file.rsplit('.').next().unwrap_or("").to_string() };
+                                format!("{}:{}", top, ext)
+                            };
+                            fails.push(json!({"sig": format!("plaintext_found:{}:{}:{}", mname, place, fname), "what": format!("after the history {:?} the {} marker occurs ({}) in {}", q.iter().map(|o| HOPS[*o]).collect::<Vec<_>>(), mname, fname, hname), "detail": {"kind": "history", "history": q.iter().map(|o| HOPS[*o]).collect::<Vec<_>>(), "backend": backend.name(), "where": hname}}));
+                        }
+                    }
+                }
+            }
+        }
+        Ok(json!({"markers": base_markers.len(), "haystacks": haystacks, "scanned_bytes": scanned_bytes, "wire_bytes": wire_bytes, "checks": checks, "sequences": seqs.len(), "ops_applied": ops_applied, "ops_refused": ops_refused, "outcomes": outcomes.len(), "outcome_list": outcomes.iter().filter(|o| !o.ends_with("s") || o.rsplit(':').next().unwrap().contains('r')).cloned().collect::<Vec<_>>()}))
+    }
+    .await;
+    let mut v = match res {
+        Ok(v) => v,
+        Err(e) => json!({"error": e.to_string()}),
+    };
+    v["fails"] = json!(fails);
+    v
+}
+
 async fn inflate(bytes: &[u8]) -> Result<Vec<(String, Vec<u8>)>> {
     use async_zip::base::read::mem::ZipFileReader;
     use futures::AsyncReadExt as _;
@@ -532,6 +771,15 @@ fn items(tier: Tier) -> Vec<(String, Backend)> {
         v.push(("pairing".to_string(), b));
         v.push(("pairing_inverted".to_string(), b));
     }
+    // operation histories: one item per first operation
+    for b in [Backend::Fs, Backend::Db] {
+        if b == Backend::Db && tier == Tier::Quick {
+            continue;
+        }
+        for o in 0..HOPS.len() {
+            v.push((format!("history:{}", o), b));
+        }
+    }
     for k in gen::KINDS {
         v.push((k.to_string(), Backend::Fs));
         if tier == Tier::Thorough || ["note", "login", "file", "contact", "totp"].contains(&k) {
@@ -555,7 +803,9 @@ fn main() {
         let _ = sos_logs::Logger::new_dir(logs_dir.clone(), "saveoursecrets.log".to_string()).init_file_subscriber(None);
         pool::worker_loop(|idx| {
             let (k, b) = &its[idx];
-            if k.starts_with("pairing") {
+            if let Some(o) = k.strip_prefix("history:") {
+                rt.block_on(run_histories(o.parse().unwrap(), *b, hist_depth(args.tier), &wd.path().join("w"), &logs_dir))
+            } else if k.starts_with("pairing") {
                 rt.block_on(run_pairing(*b, k == "pairing_inverted", &wd.path().join("w"), &logs_dir))
             } else {
                 rt.block_on(run_kind(k, *b, &wd.path().join("w"), &logs_dir))
@@ -571,6 +821,8 @@ fn main() {
     let mut bytes = 0u64;
     let mut wire = 0u64;
     let mut hay = 0u64;
+    let mut hist_irregular: Vec<String> = vec![];
+    let (mut hist_seqs, mut hist_applied, mut hist_refused, mut hist_outcomes) = (0u64, 0u64, 0u64, 0u64);
     for (i, r) in res.into_iter().enumerate() {
         match r {
             pool::ItemResult::Crashed(w) => run.machinery(format!("{:?}: {}", its[i], w)),
@@ -586,6 +838,16 @@ fn main() {
                 for f in v["fails"].as_array().unwrap() {
                     run.fail(f["sig"].as_str().unwrap(), f["what"].as_str().unwrap(), json!({"engine":"leakx","kind": its[i].0, "backend": its[i].1.name(), "detail": f["detail"]}));
                 }
+                if its[i].0.starts_with("history:") {
+                    hist_seqs += v["sequences"].as_u64().unwrap_or(0);
+                    hist_applied += v["ops_applied"].as_u64().unwrap_or(0);
+                    hist_refused += v["ops_refused"].as_u64().unwrap_or(0);
+                    hist_outcomes += v["outcomes"].as_u64().unwrap_or(0);
+                    for o in v["outcome_list"].as_array().cloned().unwrap_or_default() {
+                        hist_irregular.push(format!("{}:{}", its[i].1.name(), o.as_str().unwrap_or("")));
+                    }
+                    continue;
+                }
                 push_sample(&mut samples, json!({"kind": its[i].0, "backend": its[i].1.name(), "history": ["create secret (marker values)", "update secret", "create folder + description", "attachment (note kind)", "export backup archive", "export folder", "sync through tee", "create + sync", "second device pulls", "device 2 deletes / device 1 updates the same secret", "auto merge on both"], "markers": v["markers"], "files_and_streams_scanned": v["haystacks"]}), 4);
             }
         }
@@ -596,16 +858,21 @@ fn main() {
     run.assume("absence of the enumerated encodings of each marker is what is decided; the cryptographic strength of the ciphers is trusted");
     run.assume("folder names, account names and identifiers are not markers (the property allows them in the clear)");
     let mut cov = Map::new();
-    cov.insert("states".into(), json!(its.len()));
-    cov.insert("transitions".into(), json!(its.len() * 9));
-    cov.insert("traces_validated_against_impl".into(), json!(its.len()));
+    let fixed = its.iter().filter(|(k, _)| !k.starts_with("history:")).count() as u64;
+    if hist_seqs == 0 || hist_applied == 0 {
+        run.machinery("vacuous: no operation history was executed");
+    }
+    cov.insert("states".into(), json!(fixed + hist_seqs));
+    cov.insert("transitions".into(), json!(fixed * 9 + hist_applied + hist_refused));
+    cov.insert("traces_validated_against_impl".into(), json!(fixed + hist_seqs));
+    cov.insert("operation_histories".into(), json!({"alphabet": HOPS, "depth": hist_depth(args.tier), "backends": args.tier.pick("fs", "fs and sqlite"), "sequences": hist_seqs, "operations_applied": hist_applied, "operations_refused_by_the_sdk": hist_refused, "distinct_outcome_patterns": hist_outcomes, "histories_with_a_refused_operation_or_failed_final_sync (a=applied r=refused, then s=final sync ok e=not ok)": hist_irregular}));
     cov.insert("samples".into(), json!(samples));
     cov.insert("marker_form_checks".into(), json!(checks));
     cov.insert("bytes_scanned".into(), json!(bytes));
     cov.insert("wire_bytes_captured".into(), json!(wire));
     cov.insert("files_and_streams_scanned".into(), json!(hay));
     cov.insert("exhaustive".into(), json!(true));
-    cov.insert("rule".into(), json!("device pairing (offer/accept and the inverted protocol) on both backends through the server's relay with all websocket traffic captured, then per kind: all 15 secret kinds x client backend (fs for all, sqlite for 5 kinds in quick / all in thorough); one fixed 9-step history per kind whose every plaintext carries a marker; every file of both client directories and the server directory (archives also inflated) and the full TCP capture scanned for every marker in raw / hex / base64 (3 alignments, std and url) / UTF-16 / JSON-escaped form; positive control: planted marker found and markers present in the decrypted view"));
+    cov.insert("rule".into(), json!("every operation sequence of the stated depth over the 14-operation alphabet (operation_histories) from a two-folder baseline account, each followed by a sync through the tee and a scan of the client directory, the server directory and the wire, every plaintext introduced at any position being its own marker; device pairing (offer/accept and the inverted protocol) on both backends through the server's relay with all websocket traffic captured, then per kind: all 15 secret kinds x client backend (fs for all, sqlite for 5 kinds in quick / all in thorough); one fixed 9-step history per kind whose every plaintext carries a marker; every file of both client directories and the server directory (archives also inflated) and the full TCP capture scanned for every marker in raw / hex / base64 (3 alignments, std and url) / UTF-16 / JSON-escaped form; positive control: planted marker found and markers present in the decrypted view"));
     let _ = PathBuf::new();
     std::process::exit(run.finish(cov));
 }
